@@ -1,9 +1,11 @@
 """C15 -- generated tasks correspond one-to-one to requests: binding of specs/Factory.tla (+ FactoryImpl.tla,
 FactoryTrace.tla) to valjean.cosette.use.Use / using / Use.map, valjean.cosette.run.RunTaskFactory.make,
-valjean.cosette.task.close_dependency_graph and valjean.cambronne.common.check_unique_task_names.
+valjean.cambronne.common.collect_tasks / build_graphs (and their parts valjean.cosette.task.close_dependency_graph and
+valjean.cambronne.common.check_unique_task_names).
 
 A *world* is one process state: fresh function objects (f1, f2, f3 all named `f`; lam1..lam3 lambdas; g, h),
-base tasks t1..t3, factories F1, F2 (both named `fac`) and G1, and an emptied Use._CACHE.  A request is
+base tasks t1..t3, factories F1, F2 (both named `fac`) and G1, and a fresh copy of the module valjean.cosette.use
+(new class objects, hence new class-level state whatever it is called -- no private name is touched).  A request is
 executed by building the wrapper the way a job file does (stacked Use.from_func / using decorators, the
 Use constructor, Use.map) or by factory.make; the projection of the answer is
 
@@ -14,16 +16,20 @@ Use constructor, Use.map) or by factory.make; the projection of the answer is
 spec -> code : every complete history TLC enumerates for Factory.tla (all pairs of requests over the small
                universe, incl. mapping over the first answer), simulated longer histories over a larger
                universe, and the counterexamples TLC finds for FactoryImpl.tla (the caches as coded) are
-               executed from an emptied cache; every dumped closure case (graph x names x job) is run through
-               close_dependency_graph + check_unique_task_names.
+               executed from an emptied cache; every dumped closure case (graph x names x job set) is spelled as
+               several job lists (order, the same task object two or three times) and goes, through a real job
+               file and its arguments, into collect_tasks, build_graphs and the two parts called separately.
 code -> spec : seeded random long histories (requests made after many others, in several construction
-               styles) and random dependency graphs of up to 6 tasks; TLC judges the recorded events
+               styles), random dependency graphs of up to 6 tasks with random job lists, and jobs made of the
+               tasks that the wrappers / factories of a random history produced (listed directly or reached
+               through hard / soft dependencies of the job's own tasks); TLC judges the recorded events
                against FactoryTrace.tla.
 """
 import json
 import zlib
 import os
 import shutil
+import sys
 
 import tlc
 from tlc import Raw
@@ -60,19 +66,75 @@ def _make_named(fid, name):
     return f
 
 
+_USE_SRC = None      # (module spec, code object) of valjean.cosette.use; False = cannot be re-executed
+
+
+def _clear_class_state(cls):
+    """Fallback isolation: empty every class-level dict / set of cls (whatever its name)."""
+    for klass in getattr(cls, '__mro__', ()):
+        if klass is object:
+            continue
+        for val in list(vars(klass).values()):
+            if isinstance(val, (dict, set)):
+                try:
+                    val.clear()
+                except Exception:  # pylint: disable=broad-except
+                    pass
+
+
+def fresh_use_module():
+    """The wrappers of a new process: a fresh execution of the module valjean.cosette.use (new Use / UseRun classes with
+    new class-level state, new module-level state), not registered in sys.modules so that nothing else is disturbed.
+    If the module cannot be re-executed, the registered module with every class-level dict / set of Use emptied.
+    check_isolation() verifies that the result really behaves like a new process."""
+    global _USE_SRC      # pylint: disable=global-statement
+    import importlib.util
+    if _USE_SRC is None:
+        try:
+            spec = importlib.util.find_spec('valjean.cosette.use')
+            _USE_SRC = (spec, spec.loader.get_code(spec.name))
+        except Exception:  # pylint: disable=broad-except
+            _USE_SRC = False
+    if _USE_SRC:
+        try:
+            spec, code = _USE_SRC
+            mod = importlib.util.module_from_spec(spec)
+            exec(code, mod.__dict__)      # pylint: disable=exec-used
+            if hasattr(mod, 'Use') and hasattr(mod, 'using'):
+                return mod
+        except Exception:  # pylint: disable=broad-except
+            pass
+        _USE_SRC = False
+    import valjean.cosette.use as registered
+    _clear_class_state(registered.Use)
+    return registered
+
+
+def check_isolation():
+    """Two worlds must not share generated tasks (else the histories are not `from a new process`)."""
+    reqs = [dict(kind='use', func='f1', pos=[dict(task='t1', key='result')], kw=[], soft=soft, fac='-', name='-', args=[], deps=[], sdeps=[])
+            for soft in (False, True)]
+    reqs.append(dict(kind='make', func='-', pos=[], kw=[], soft=False, fac='F1', name='n1', args=['a'], deps=[], sdeps=[]))
+    first = World()
+    answers = [first.request(req)[0] for req in reqs]
+    second = World()                  # (a new world begins when the previous one has made its requests)
+    for req, a in zip(reqs, answers):
+        b = second.request(req)[0]
+        if a and b and first.tasks[a - 1] is second.tasks[b - 1]:
+            raise tlc.MachineryError('cannot obtain a fresh process state: two worlds share the task of %s' % (req,))
+
+
 class World:
     _ROOT = None
 
     def __init__(self):
         self.partial = {}
-        from valjean.cosette.use import Use
+        self.use_mod = fresh_use_module()
+        Use = self.use_mod.Use
         from valjean.cosette.run import RunTaskFactory
         from valjean.cosette.pythontask import PythonTask
         from valjean.cosette.task import TaskStatus
         from valjean.config import Config
-        Use._CACHE.clear()        # pylint: disable=protected-access  (the only way to get a fresh process state)
-        if hasattr(Use, '_CACHE_KEYS'):
-            Use._CACHE_KEYS.clear()   # pylint: disable=protected-access,no-member
         self.Use = Use
         self.funcs = {}
         for fid, name in FUNC_NAMES.items():
@@ -135,7 +197,7 @@ class World:
     def build_use(self, req, style):
         """The wrapper object for a use request.  pos is in CALL order; stacked decorators provide the
         positional arguments from the outside in, i.e. the last wrapper applied gives the first argument."""
-        from valjean.cosette.use import Use, using
+        Use, using = self.use_mod.Use, self.use_mod.using
         func = self.funcs[req['func']]
         deps_type = 'soft' if req['soft'] else 'hard'
         pos = [(self._obj(p['task']), p['key']) for p in req['pos']]
@@ -318,38 +380,256 @@ def classify(world, idx, clauses, exp_meaning=None):
 # ---------------------------------------------------------------------------------------------
 # collect
 
-def observe_collect(case):
-    """case: ntasks, names, rel=[{i, j, how}], job.  Real tasks, close_dependency_graph, check_unique_task_names."""
+COLLECT_VIAS = ('collect_tasks', 'build_graphs', 'parts')
+JOB_TASKS = {}       # token -> the task objects prepared for the job file (read by the job file through sys.modules)
+MAX_COLLECT = 10     # tasks per collect event (NTasks of FactoryTrace.tla)
+
+_JOB_SOURCE = '''"""Job file written by the C15 harness (conf_factory.py).
+
+job() returns the tasks that the harness prepared under `token`, in the order and with the multiplicity given by `sel`
+(comma-separated positions), the way a job returns a list of task objects."""
+import sys
+
+
+def job(token, sel, *, harness):
+    tasks = sys.modules[harness].JOB_TASKS[token]
+    return [tasks[int(i)] for i in sel.split(',') if i]
+'''
+
+
+class Collector:
+    """Sends lists of real tasks through a real job file into valjean.cambronne.common."""
+
+    def __init__(self, root=None):
+        root = root or _scratch('c15job')
+        self.dir = os.path.join(root, 'job%d' % os.getpid())
+        os.makedirs(self.dir, exist_ok=True)
+        self.stem = 'c15job_%d_%d' % (os.getpid(), id(self) % 100000)
+        self.file = os.path.join(self.dir, self.stem + '.py')
+        with open(self.file, 'w', encoding='utf-8') as f:
+            f.write(_JOB_SOURCE)
+        self._path = list(sys.path)
+        self._dont = sys.dont_write_bytecode
+        sys.dont_write_bytecode = True
+        self.calls = 0
+
+    def close(self):
+        sys.modules.pop(self.stem, None)
+        sys.path[:] = [x for x in sys.path if x in self._path]
+        for k in [k for k in sys.path_importer_cache if k.startswith(self.dir)]:
+            del sys.path_importer_cache[k]
+        sys.dont_write_bytecode = self._dont
+
+    def selfcheck(self):
+        """The entry points can be driven the way this harness drives them: a job of one task without dependencies does not
+        die of a TypeError / AttributeError / ... (a wrong answer is left to the normal comparison with TLC)."""
+        for via in COLLECT_VIAS:
+            obs = self.collect(graph_tasks(dict(ntasks=1, names=['a'], rel=[])), [1], via)
+            if obs['exc']:
+                raise tlc.MachineryError('cannot drive valjean.cambronne.common through %s with a job of one task: %s' % (via, obs['exc']))
+
+    def collect(self, objs, job, via):
+        """objs: {index: task}; job: list of indices (repetitions allowed); via: which entry of valjean is used.
+        Observation: rejected (an exception instead of tasks), returned (a list of tasks came back) and its
+        projection collected (indices; 0 = an object that is none of objs)."""
+        import argparse
+        from valjean.cambronne import common
+        from valjean.cosette.task import close_dependency_graph
+        self.calls += 1
+        index = lambda g: next((i for i, t in objs.items() if t is g), 0)
+        obs = dict(collected=[], rejected=False, returned=False, exc='')
+        token = 'k%d' % self.calls
+        JOB_TASKS[token] = objs
+        job_args, job_kwargs = [token, ','.join(str(j) for j in job)], {'harness': __name__}
+        try:
+            if via == 'parts':
+                try:
+                    got = close_dependency_graph([objs[j] for j in job])
+                    obs.update(returned=True, collected=sorted(index(g) for g in got))
+                except Exception as ex:  # pylint: disable=broad-except
+                    obs.update(returned=True, collected=[0], exc='close_dependency_graph raised %s' % type(ex).__name__)
+                    return obs
+                try:
+                    common.check_unique_task_names(got)
+                except Exception as ex:  # pylint: disable=broad-except
+                    obs['rejected'] = True
+                    if not isinstance(ex, ValueError):
+                        obs['exc'] = 'check_unique_task_names raised %s' % type(ex).__name__
+                return obs
+            try:
+                if via == 'collect_tasks':
+                    got = common.collect_tasks(self.file, job_args, job_kwargs)
+                    obs.update(returned=True, collected=sorted(index(g) for g in got))
+                else:
+                    hard, soft = common.build_graphs(argparse.Namespace(job_file=self.file, job_args=job_args, job_kwargs=job_kwargs))
+                    nodes = sorted(index(g) for g in hard.nodes())
+                    if sorted(index(g) for g in soft.nodes()) != nodes:
+                        nodes.append(0)          # the two graphs must be built on the same collected tasks
+                    obs.update(returned=True, collected=nodes)
+            except SystemExit as ex:
+                raise tlc.MachineryError('the job file of the harness was not found by valjean (%s)' % (ex,))
+            except Exception as ex:  # pylint: disable=broad-except
+                obs['rejected'] = True
+                if not isinstance(ex, ValueError):
+                    obs['exc'] = '%s raised %s' % (via, type(ex).__name__)
+            return obs
+        finally:
+            del JOB_TASKS[token]
+
+
+def graph_tasks(case):
+    """Real tasks for the graph of a collect case: ntasks, names, rel=[{i, j, how}] (j < i)."""
     from valjean.cosette.pythontask import PythonTask
-    from valjean.cosette.task import close_dependency_graph, TaskStatus
-    from valjean.cambronne.common import check_unique_task_names
-    n = case['ntasks']
+    from valjean.cosette.task import TaskStatus
     tasks = {}
-    for i in range(1, n + 1):
+    for i in range(1, case['ntasks'] + 1):
         hard = [tasks[x['j']] for x in case['rel'] if x['i'] == i and x['how'] in ('hard', 'both')]
         soft = [tasks[x['j']] for x in case['rel'] if x['i'] == i and x['how'] in ('soft', 'both')]
         tasks[i] = PythonTask(case['names'][i - 1], (lambda: ({}, TaskStatus.DONE)), deps=hard or None, soft_deps=soft or None)
-    obs = dict(collected=[], rejected=False, exc='')
-    try:
-        got = close_dependency_graph([tasks[j] for j in case['job']])
-        obs['collected'] = [next((i for i, t in tasks.items() if t is g), 0) for g in got]
-        obs['collected'].sort()
-    except Exception as ex:  # pylint: disable=broad-except
-        obs['exc'] = 'close_dependency_graph raised %s' % type(ex).__name__
-        obs['collected'] = [0]
-        return obs
-    try:
-        check_unique_task_names(got)
-    except ValueError:
-        obs['rejected'] = True
-    except Exception as ex:  # pylint: disable=broad-except
-        obs['exc'] = 'check_unique_task_names raised %s' % type(ex).__name__
-        obs['rejected'] = True
-    return obs
+    return tasks
 
 
-def collect_key(clauses):
-    return 'C15/collect/%s' % '+'.join(sorted(clauses))
+def graph_of(objs):
+    """Projection of real task objects: (order, names, rel) with every dependency numbered before its dependents;
+    order contains objs and every task they reach.  The names and dependencies are read off the objects."""
+    order, num, busy = [], {}, set()
+
+    def deps(t):
+        return list(t.depends_on or ()), list(t.soft_depends_on or ())
+
+    def visit(t):
+        if id(t) in num:
+            return
+        if id(t) in busy:
+            raise tlc.MachineryError('cyclic dependencies among the generated tasks')
+        busy.add(id(t))
+        hard, soft = deps(t)
+        for d in hard + soft:
+            visit(d)
+        busy.discard(id(t))
+        order.append(t)
+        num[id(t)] = len(order)
+
+    for t in objs:
+        visit(t)
+    rel = []
+    for i, t in enumerate(order, 1):
+        hard, soft = deps(t)
+        hs, ss = set(num[id(d)] for d in hard), set(num[id(d)] for d in soft)
+        for j in sorted(hs | ss):
+            rel.append(dict(i=i, j=j, how='both' if j in hs and j in ss else 'hard' if j in hs else 'soft'))
+    return order, [str(t.name) for t in order], rel
+
+
+def world_collect(world, case):
+    """A job made of the tasks of a world: case['job'] lists base tasks ('t1'), generated tasks ('#k') and the job's own
+    tasks ('T1', ..: case['tops'][n-1] = dict(hard=[refs], soft=[refs]), named top<n>).  Returns the graph case (numbers,
+    names and dependencies as observed on the real objects), the objects and the job as numbers."""
+    from valjean.cosette.pythontask import PythonTask
+    from valjean.cosette.task import TaskStatus
+    tops = {}
+
+    def ref(r):
+        return tops[r] if r in tops else world._obj(r)      # pylint: disable=protected-access
+
+    for n, top in enumerate(case['tops'], 1):
+        tops['T%d' % n] = PythonTask('top%d' % n, (lambda: ({}, TaskStatus.DONE)), deps=[ref(r) for r in top['hard']] or None,
+                                     soft_deps=[ref(r) for r in top['soft']] or None)
+    # the universe: the base tasks, whatever the job and its own tasks name, and (graph_of) everything those depend on
+    universe = ([world.bases[b] for b in sorted(world.bases)] + [ref(r) for top in case['tops'] for r in top['hard'] + top['soft']]
+                + [ref(r) for r in case['job']])
+    order, names, rel = graph_of(universe)
+    objs = dict(enumerate(order, 1))
+    job = [next(i for i, t in objs.items() if t is ref(r)) for r in case['job']]
+    return dict(op='collect', ntasks=len(order), names=names, rel=rel, job=job, via=case['via']), objs, job
+
+
+def random_world_job(rng, world):
+    """A job over the tasks the wrappers / factories of `world` produced: some listed directly, some reached only through a
+    hard or soft dependency of a task of the job itself; biased towards different tasks with one name."""
+    tags = sorted(world.bases) + ['#%d' % k for k in range(1, len(world.tasks) + 1)]
+    groups = {}
+    for tag in tags:
+        groups.setdefault(world._obj(tag).name, []).append(tag)       # pylint: disable=protected-access
+    clashes = [g for g in groups.values() if len(g) > 1]
+    chosen = []
+    if clashes and rng.random() < 0.6:
+        chosen = rng.sample(rng.choice(clashes), 2)
+    for tag in rng.sample(tags, rng.randint(0 if chosen else 1, min(3, len(tags)))):
+        if tag not in chosen:
+            chosen.append(tag)
+    tops, job = [], []
+    for tag in chosen:
+        how = rng.choice(['direct', 'direct', 'hard', 'soft'])
+        if how == 'direct':
+            job.append(tag)
+        else:
+            if tops and rng.random() < 0.3:
+                tops[-1][how].append(tag)
+            else:
+                tops.append(dict(hard=[], soft=[]))
+                tops[-1][how].append(tag)
+                job.append('T%d' % len(tops))
+    if rng.random() < 0.35:
+        job.insert(rng.randint(0, len(job)), rng.choice(job))
+    return dict(tops=tops, job=job, via=rng.choice(['collect_tasks', 'collect_tasks', 'build_graphs', 'parts']))
+
+
+def job_spellings(job):
+    """The lists a job() can return for the set of tasks `job` (sorted): order and repetitions of the same object."""
+    job = list(job)
+    return [('', job), ('/reversed', job[::-1]), ('/listed-twice', job + job[:1]), ('/listed-three-times', job[-1:] + job + job[-1:])]
+
+
+def _closure(case):
+    todo, seen = list(case['job']), set(case['job'])
+    while todo:
+        i = todo.pop()
+        for x in case['rel']:
+            if x['i'] == i and x['j'] not in seen:
+                seen.add(x['j'])
+                todo.append(x['j'])
+    return seen
+
+
+def collect_key(clauses, case=None, obs=None):
+    """Finding class: the failing clauses, the entry point and (a label only, the verdict is TLC's) the shape of the job."""
+    key = 'C15/collect/%s' % '+'.join(sorted(clauses))
+    if not case or obs is None:
+        return key
+    key += '/' + case.get('via', 'parts')
+    closure, listed = _closure(case), set(case['job'])
+    name = lambda i: case['names'][i - 1]
+    clash = [(i, j) for i in sorted(closure) for j in sorted(closure) if i < j and name(i) == name(j)]
+    if 'Unique' in clauses:
+        if obs['rejected'] and not clash:
+            return key + ('/same-task-listed-several-times-rejected' if len(case['job']) > len(listed) else '/rejected-without-name-clash')
+        if clash:
+            where = set(len(listed & {i, j}) for i, j in clash)
+            soft_only = all(x['how'] == 'soft' for x in case['rel'] if x['i'] in closure)
+            return key + '/name-clash-accepted/' + ('both-listed' if 2 in where else 'one-listed-one-dependency' if 1 in where
+                                                    else 'both-only-dependencies') + ('-soft' if soft_only and 2 not in where else '')
+    if 'Closure' in clauses:
+        got = list(obs['collected'])
+        if len(got) > len(set(got)):
+            return key + '/task-returned-twice'
+        if set(got) < closure:
+            missing = closure - set(got)
+            how = set(x['how'] for x in case['rel'] if x['j'] in missing and x['i'] in closure)
+            return key + '/dependency-missing' + ('-soft' if how == {'soft'} else '')
+        return key + '/other-tasks-returned'
+    return key
+
+
+def observe_collect(case, collector=None):
+    """case: ntasks, names, rel=[{i, j, how}], job (a list: repetitions allowed), via (default: the parts called separately)."""
+    own = collector is None
+    collector = collector or Collector()
+    try:
+        return collector.collect(graph_tasks(case), case['job'], case.get('via', 'parts'))
+    finally:
+        if own:
+            collector.close()
 
 
 # ---------------------------------------------------------------------------------------------
@@ -361,7 +641,7 @@ def _json_event(tid, step, ev):
     if ev['op'] == 'collect':
         c = ev['case']
         return dict(op='collect', tid=tid, step=step, names=c['names'], rel=c['rel'], job=c['job'],
-                    collected=ev['obs']['collected'], rejected=ev['obs']['rejected'])
+                    collected=ev['obs']['collected'], rejected=ev['obs']['rejected'], returned=ev['obs']['returned'])
     return dict(op='reset', tid=tid, step=step)
 
 
@@ -369,11 +649,13 @@ def tlc_verdict(traces, wd, ctx=None, name='FactoryTrace'):
     """traces: list of (tid, [events]).  Returns {(tid, step): [clauses]} as judged by TLC."""
     events = []
     for tid, evs in traces:
-        events.append(_json_event(tid, 0, dict(op='reset')))
+        if not (evs and evs[0]['op'] == 'collect'):          # (a collect event starts from nothing by itself)
+            events.append(_json_event(tid, 0, dict(op='reset')))
         for step, ev in enumerate(evs, 1):
             events.append(_json_event(tid, step, ev))
     tag = name.replace('/', '_')
-    cj = tlc.json_dump(os.path.join(wd, 'events_%s.json' % tag), dict(events=events))
+    ntasks = max([6] + [len(e['names']) for e in events if e['op'] == 'collect'])
+    cj = tlc.json_dump(os.path.join(wd, 'events_%s.json' % tag), dict(events=events, ntasks=ntasks))
     oj = os.path.join(wd, 'verdict_%s.json' % tag)
     cfg = tlc.write_cfg(os.path.join(wd, 'trace_%s.cfg' % tag), spec='TSpec', invariants=['C15_Collect'], deadlock=False, postcondition='Post')
     res = tlc.run(TRACE, cfg, workers=1, coverage=False, env=dict(VERIF_CASES=cj, VERIF_OUT=oj), timeout=3000)
@@ -393,15 +675,29 @@ def replay_case(case):
     import core
     core.use_repo()
     wd = tlc.workdir('c15r')
+    check_isolation()
     if case['op'] == 'collect':
         obs = observe_collect(case)
         verdict, _n = tlc_verdict([(1, [dict(op='collect', case=case, obs=obs)])], wd)
         if not verdict:
-            return True, 'closure and name check as Factory.tla says: %s' % (obs,)
-        return False, 'clauses %s false: observed %s' % (sorted(verdict[(1, 1)]), obs)
+            return True, 'closure and name check (%s) as Factory.tla says: %s' % (case.get('via', 'parts'), obs)
+        return False, 'clauses %s false: job %s of the tasks named %s with dependencies %s: observed %s' % (
+            sorted(verdict[(1, 1)]), case['job'], case['names'], case['rel'], obs)
     world = World()
     for req, style in zip(case['requests'], case.get('styles') or ['stack'] * len(case['requests'])):
         world.step(req, style)
+    if case['op'] == 'collect-world':
+        gcase, objs, job = world_collect(world, case)
+        collector = Collector()
+        try:
+            obs = collector.collect(objs, job, case['via'])
+        finally:
+            collector.close()
+        verdict, _n = tlc_verdict([(1, [dict(op='collect', case=gcase, obs=obs)])], wd)
+        if not verdict:
+            return True, 'closure and name check (%s) as Factory.tla says: %s' % (case['via'], obs)
+        return False, 'clauses %s false: job %s (tops %s) after the requests; tasks named %s with dependencies %s, job %s: observed %s' % (
+            sorted(verdict[(1, 1)]), case['job'], case['tops'], gcase['names'], gcase['rel'], job, obs)
     if case.get('reobserve'):
         first = dict(world.obs_cache)
         world.obs_cache = {}
@@ -526,19 +822,26 @@ def run_c15(ctx):
              'configuration, the second possibly injecting / mapping over the task of the first), simulated longer histories over a '
              'larger universe, and the counterexamples of FactoryImpl.tla are executed on real Use / using / Use.map / '
              'RunTaskFactory.make objects from an emptied cache; answers are compared by identity class and by what the returned '
-             'task does on a prepared environment; every closure case TLC dumps is run through close_dependency_graph + '
-             'check_unique_task_names. code->spec: seeded random long histories and random graphs, judged by TLC (FactoryTrace.tla). '
-             'distinct_nontrivial counts distinct histories with at least two different requests, and closure cases with a '
-             'dependency reached only transitively or a duplicated name.')
+             'task does on a prepared environment; every closure case TLC dumps (graph x names x job set) is spelled as job lists '
+             '(sorted, reversed, a task object listed twice / three times) that a real job file returns from its arguments, and goes '
+             'through valjean.cambronne.common.collect_tasks, build_graphs and close_dependency_graph + check_unique_task_names. '
+             'code->spec: seeded random long histories, random graphs with random job lists, and jobs over the tasks the wrappers / '
+             'factories of each history produced (listed or reached through hard / soft dependencies of the job\'s own tasks), '
+             'judged by TLC (FactoryTrace.tla). distinct_nontrivial counts distinct histories with at least two different requests, and '
+             'collections (graph, names, job list) with a dependency reached only transitively or a duplicated name.')
     ctx.assume('separately created wrappers with identical parameters are identical requests; different factory objects are '
                'different requests; serialize is not varied; positional arguments are compared in call order (the documented '
                'outside-in order of stacked decorators)')
-    ctx.assume('a fresh process state is obtained by emptying Use._CACHE (class attribute) and creating new factories')
+    ctx.assume('a fresh process state is obtained by executing the module valjean.cosette.use again (new classes, new '
+               'class-level caches) and creating new factories; checked: two worlds never share a generated task')
     import time
     t0 = time.time()
     dbg = (lambda m: print('  [c15 %.1fs] %s' % (time.time() - t0, m))) if os.environ.get('VERIF_DEBUG') else (lambda m: None)
     wd = tlc.workdir('c15')
     stats = dict(histories=0, requests=0, bad=0, cut=0)
+    import core
+    core.use_repo()
+    check_isolation()             # (also prepares the code object of valjean.cosette.use before the fork)
 
     # 1. all pairs
     small = dict(funcs=['f1', 'f2', 'lam1', 'lam2', 'g'], bases=['t1', 't2'], facs=['F1', 'F2', 'G1'])
@@ -636,7 +939,9 @@ def run_c15(ctx):
     if not ctx.quick:
         ccfgs.append(('collect4', _consts(funcs=[], bases=[], facs=[], ops=['collect'], ntasks=4, tasknames=['a', 'b'], maxlen=0,
                                           relkinds=['none', 'hard', 'soft'])))
-    n_collect = 0
+    n_collect = n_graphs = 0
+    collector = Collector(os.environ['VERIF_C15_ROOT'])
+    collector.selfcheck()
     for name, consts in ccfgs:
         cfg = tlc.write_cfg(os.path.join(wd, name + '.cfg'), constants=consts, invariants=['C15_Collect'], deadlock=False)
         dump = os.path.join(wd, name)
@@ -650,25 +955,38 @@ def run_c15(ctx):
                 continue
             n = consts['NTasks']
             names = list(st['tname']) if isinstance(st['tname'], tuple) else [st['tname'][i] for i in range(1, n + 1)]
-            case = dict(op='collect', ntasks=n, names=names,
-                        rel=[dict(i=p[0], j=p[1], how=h) for p, h in sorted(st['rel'].items()) if h != 'none'], job=sorted(st['job']))
-            obs = observe_collect(case)
-            n_collect += 1
-            problems = []
-            if obs['collected'] != sorted(st['visited']):
-                problems.append('Closure')
-            if obs['rejected'] != bool(st['rejected']):
-                problems.append('Unique')
-            if problems:
-                ctx.violation(collect_key(problems), 'observed %s; Factory.tla: closure %s rejected %s' % (obs, sorted(st['visited']), st['rejected']),
-                              case, module='conf_factory')
-            if len(st['visited']) > len(st['job']) + sum(1 for x in case['rel'] if x['i'] in st['job']) or st['rejected']:
-                ctx.distinct(('collect', st['rel'], st['tname'], st['job']))
-            if n_collect % 1999 == 1:
-                ctx.sample(dict(case=case, observed=obs, closure=sorted(st['visited']), rejected=bool(st['rejected'])))
+            graph = dict(op='collect', ntasks=n, names=names,
+                         rel=[dict(i=p[0], j=p[1], how=h) for p, h in sorted(st['rel'].items()) if h != 'none'])
+            closure, rejected = sorted(st['visited']), bool(st['rejected'])
+            nontrivial = len(st['visited']) > len(st['job']) + sum(1 for x in graph['rel'] if x['i'] in st['job']) or rejected
+            n_graphs += 1
+            failed = set()
+            for via in COLLECT_VIAS:
+                # every spelling of the job set through the real entry point; the plain one and one with a repetition
+                # through build_graphs and through the two parts called separately
+                for spelling, job in job_spellings(sorted(st['job'])):
+                    if (via != 'collect_tasks' or n > 3) and spelling in ('/reversed', '/listed-three-times'):
+                        continue
+                    case = dict(graph, job=job, via=via)
+                    obs = collector.collect(graph_tasks(graph), job, via)
+                    n_collect += 1
+                    problems = []
+                    if obs['returned'] and obs['collected'] != closure:
+                        problems.append('Closure')
+                    if obs['rejected'] != rejected:
+                        problems.append('Unique')
+                    if problems and not (via == 'build_graphs' and spelling in failed):      # (build_graphs calls collect_tasks)
+                        failed.add(spelling)
+                        ctx.violation(collect_key(problems, case, obs), 'job %s of the tasks named %s with dependencies %s through %s: observed %s; '
+                                      'Factory.tla: closure %s rejected %s' % (job, names, graph['rel'], via, obs, closure, rejected),
+                                      case, module='conf_factory')
+                    if nontrivial and via == 'collect_tasks':
+                        ctx.distinct(('collect', st['rel'], st['tname'], tuple(job)))
+                    if n_collect % 9973 == 1:
+                        ctx.sample(dict(case=case, observed=obs, closure=closure, rejected=rejected))
         os.remove(dump + '.dump')
     ctx.count(evaluations=n_collect, traces=n_collect)
-    dbg('closure cases replayed: %d' % n_collect)
+    dbg('closure cases replayed: %d graphs x jobs, %d collections' % (n_graphs, n_collect))
     def _witness(arg):
         wit, consts = arg
         wcfg = tlc.write_cfg(os.path.join(wd, wit + '.cfg'), constants=consts, invariants=[wit], deadlock=False)
@@ -676,9 +994,9 @@ def run_c15(ctx):
         if wres.violation != ('invariant', wit):
             raise tlc.MachineryError('witness %s not reachable in Factory.tla' % wit)
 
-    with ThreadPoolExecutor(max_workers=6) as tp:
+    with ThreadPoolExecutor(max_workers=7) as tp:
         list(tp.map(_witness, (('W_Repeat', pairs), ('W_Mapped', pairs), ('W_Mixed', pairs), ('W_Error', dict(pairs, AllowError=True)),
-                               ('W_Rejected', ccfgs[0][1]), ('W_Deep', ccfgs[0][1]))))
+                               ('W_Rejected', ccfgs[0][1]), ('W_Deep', ccfgs[0][1]), ('W_DeepSoftClash', ccfgs[0][1]))))
     dbg('witnesses')
 
     # 5. code -> spec
@@ -689,6 +1007,22 @@ def run_c15(ctx):
         world = World()
         for _n in range(rng.randint(4, ctx.pick(10, 14))):
             world.step(*random_request(rng, world))
+        worlds.append(world)
+    # histories in which two factories with one name are asked for the same thing (two different tasks with one name)
+    for _h in range(nhist // 4):
+        world = World()
+        n = rng.randint(3, 7)
+        at = sorted(rng.sample(range(n), 2))
+        twin = None
+        for k in range(n):
+            req, style = random_request(rng, world)
+            if k == at[0]:
+                req = dict(kind='make', func='-', pos=[], kw=[], soft=False, fac=rng.choice(['F1', 'F2']), name=rng.choice(['-', '-', 'n1']),
+                           args=rng.choice([[], ['a'], ['a', 'b']]), deps=sorted(rng.sample(['t1', 't2', 't3'], rng.choice([0, 0, 1]))), sdeps=[])
+                twin = dict(json.loads(json.dumps(req)), fac='F2' if req['fac'] == 'F1' else 'F1')
+            elif k == at[1]:
+                req = twin
+            world.step(req, style)
         worlds.append(world)
     # one wrapper object specialised several times (a base and its branches), every order, both injection ways
     for world in branch_scenarios():
@@ -710,16 +1044,48 @@ def run_c15(ctx):
                 break
     traces = [(tid, w.events) for tid, w in enumerate(worlds, 1)]
     ngraphs = ctx.pick(1500, 20000)
-    ctraces = []
+    ctraces = []          # (trace id, [collect event]); crec[trace id] = (group, case to replay)
+
+    crec = {}
+
+    def collect_event(group, case, gcase, obs):
+        tid = nhist + len(ctraces) + 1
+        ctraces.append((tid, [dict(op='collect', case=gcase, obs=obs)]))
+        crec[tid] = (group, case)
+
     for g in range(ngraphs):
         n = rng.randint(1, 6)
-        case = dict(op='collect', ntasks=n, names=[rng.choice(['a', 'b', 'c', 'd', 'e', 'f', 'g']) for _ in range(n)],
-                    rel=[dict(i=i, j=j, how=rng.choice(['hard', 'soft', 'both'])) for i in range(2, n + 1) for j in range(1, i) if rng.random() < 0.35],
-                    job=sorted(rng.sample(range(1, n + 1), rng.randint(1, n))))
-        ctraces.append((nhist + g + 1, [dict(op='collect', case=case, obs=observe_collect(case))]))
-    dbg('random histories and graphs executed')
+        job = sorted(rng.sample(range(1, n + 1), rng.randint(1, n)))
+        while rng.random() < 0.3 and len(job) < 8:
+            job.append(rng.choice(job))         # the same task object listed again
+        rng.shuffle(job)
+        graph = dict(op='collect', ntasks=n, names=[rng.choice(['a', 'b', 'c', 'd', 'e', 'f', 'g']) for _ in range(n)],
+                     rel=[dict(i=i, j=j, how=rng.choice(['hard', 'soft', 'both'])) for i in range(2, n + 1) for j in range(1, i) if rng.random() < 0.35],
+                     job=job)
+        for via in ['collect_tasks'] + rng.sample(['build_graphs', 'parts', None, None, None, None], 1):
+            if via:
+                case = dict(graph, via=via)
+                collect_event(('graph', g), case, case, observe_collect(case, collector))
+    # jobs made of the tasks that the wrappers and factories of a history produced
+    nwjobs = nclash = 0
+    for w, world in enumerate(worlds):
+        spec = random_world_job(rng, world)
+        case = dict(spec, op='collect-world', requests=[e['req'] for e in world.events], styles=[e['style'] for e in world.events])
+        gcase, objs, job = world_collect(world, case)
+        if gcase['ntasks'] > MAX_COLLECT:
+            continue
+        nwjobs += 1
+        for via in [spec['via']] + (['collect_tasks'] if spec['via'] == 'build_graphs' else []):
+            collect_event(('world', w), dict(case, via=via), dict(gcase, via=via), collector.collect(objs, job, via))
+        if len(set(gcase['names'])) < len(gcase['names']):
+            nclash += 1
+            ctx.distinct(('world-collect', tuple(gcase['names']), json.dumps(gcase['rel']), tuple(job)))
+    collector.close()
+    dbg('random histories and graphs executed (%d collections, %d jobs of generated tasks, %d of them with a repeated name)'
+        % (len(ctraces), nwjobs, nclash))
     verdict, nev = tlc_verdict(traces + ctraces, wd, ctx, 'FactoryTrace/random')
     dbg('judged by TLC: %d events, %d failing' % (nev, len(verdict)))
+    failed_ct = set(crec[tid][0] for (tid, _step) in verdict if tid > nhist and crec[tid][1]['via'] == 'collect_tasks')
     for (tid, step), clauses in sorted(verdict.items()):
         if tid <= nhist:
             world = worlds[tid - 1]
@@ -729,19 +1095,31 @@ def run_c15(ctx):
                           dict(op='hist', requests=[e['req'] for e in evs], styles=[e['style'] for e in evs]), module='conf_factory')
         else:
             ev = ctraces[tid - nhist - 1][1][0]
-            ctx.violation(collect_key(clauses), 'observed %s' % (ev['obs'],), ev['case'], module='conf_factory')
+            group, case = crec[tid]
+            if case['via'] == 'build_graphs' and group in failed_ct:
+                continue                       # build_graphs calls collect_tasks: the same finding
+            gcase = ev['case']
+            key = collect_key(clauses, gcase, ev['obs'])
+            if group[0] == 'world' and key not in getattr(ctx, 'violations', {}):
+                key += '/generated-tasks'      # (a class of its own only if plain tasks with these names and dependencies are handled well)
+            ctx.violation(key,
+                          'job %s of the tasks named %s with dependencies %s through %s: observed %s%s' % (
+                              gcase['job'], gcase['names'], gcase['rel'], case['via'], ev['obs'],
+                              ' (job %s, its own tasks %s, after the requests of a random history)' % (case['job'], case['tops']) if group[0] == 'world' else ''),
+                          case, module='conf_factory')
     for w in worlds:
         reqs = [json.dumps(e['req'], sort_keys=True) for e in w.events]
         if len(set(reqs)) > 1:
             ctx.distinct(('rand', tuple(reqs)))
-    ctx.count(evaluations=sum(len(w.events) for w in worlds) + ngraphs, traces=nhist + ngraphs)
+    ctx.count(evaluations=sum(len(w.events) for w in worlds) + len(ctraces), traces=nhist + len(ctraces))
     ctx.sample(dict(source='random history', events=[dict(req=e['req'], resp=e['resp'], obs=e['obs'], style=e['style']) for e in worlds[0].events[:4]]))
     ctx.sample(dict(source='random graph', case=ctraces[0][1][0]['case'], observed=ctraces[0][1][0]['obs']))
     ctx.cov['exhaustive'] = True
     ctx.cov['explanation'] = ('all pairs of requests of the configuration Factory/pairs replayed (%d complete histories, %d cut at a '
                               'permitted explicit error, %d with a violation), %d simulated longer histories, %d closure cases; %d random '
-                              'histories and %d random graphs judged by TLC (%d events)' % (
-                                  stats['histories'], stats['cut'], stats['bad'], len(behs), n_collect, nhist, ngraphs, nev))
+                              'histories, %d random graphs with random job lists and %d jobs made of the generated tasks of the histories, '
+                              'sent through collect_tasks / build_graphs / the parts, judged by TLC (%d events)' % (
+                                  stats['histories'], stats['cut'], stats['bad'], len(behs), n_collect, nhist, ngraphs, nwjobs, nev))
 
 
 def branch_scenarios():
